@@ -136,13 +136,56 @@ pub fn codec_compress(c: u8, data: &[u8]) -> Vec<u8> {
 /// the same content as several concatenated frames where the codec's format allows it (zstd: a stream is a sequence of
 /// frames); other codecs as [codec_compress]
 pub fn codec_compress_frames(c: u8, data: &[u8]) -> Vec<u8> {
-    if c == 4 && data.len() >= 2 {
-        let cut = data.len() / 2;
-        let mut out = zstd::stream::encode_all(&data[..cut], 3).unwrap();
-        out.extend_from_slice(&zstd::stream::encode_all(&data[cut..], 3).unwrap());
-        return out;
+    // which variety of encoder output: chosen by the content, so the sections of one archive differ
+    let v = data.iter().fold(data.len() as u64, |a, b| a.wrapping_mul(31).wrapping_add(u64::from(*b)));
+    codec_compress_variety(c, data, v)
+}
+/// other writers' encoders: every output here is a valid stream of its format that decodes to `data`
+/// (zstd: several frames; a streaming encoder that does not know the size in advance and announces a window of
+/// 2^22 .. 2^27 bytes; ultra levels; checksums on or off - gzip: stored blocks, best compression - brotli: smallest and
+/// largest window, lowest and highest quality)
+pub fn codec_compress_variety(c: u8, data: &[u8], v: u64) -> Vec<u8> {
+    match c {
+        4 => {
+            if v % 5 == 0 && data.len() >= 2 {
+                let cut = data.len() / 2;
+                let mut out = zstd::stream::encode_all(&data[..cut], 3).unwrap();
+                out.extend_from_slice(&zstd::stream::encode_all(&data[cut..], 3).unwrap());
+                return out;
+            }
+            let level = [1, 3, 19, 20, 22, -5][(v / 5 % 6) as usize];
+            let mut e = zstd::stream::write::Encoder::new(Vec::new(), level).unwrap();
+            let wl = [0u32, 22, 24, 26, 27, 10][(v / 30 % 6) as usize];
+            if wl != 0 {
+                e.window_log(wl).unwrap();
+            }
+            e.include_checksum(v / 180 % 2 == 0).unwrap();
+            e.include_contentsize(false).unwrap();
+            // written in pieces, size not announced: the frame header carries the window size, not the content size
+            for piece in data.chunks(1 + (v % 97) as usize) {
+                e.write_all(piece).unwrap();
+            }
+            e.finish().unwrap()
+        }
+        2 => {
+            let level = [0u32, 1, 6, 9][(v % 4) as usize];
+            let mut e = flate2::write::GzEncoder::new(Vec::new(), flate2::Compression::new(level));
+            for piece in data.chunks(1 + (v % 53) as usize) {
+                e.write_all(piece).unwrap();
+            }
+            e.finish().unwrap()
+        }
+        3 => {
+            let (q, lgwin) = [(0u32, 10u32), (11, 24), (5, 16), (9, 22), (1, 24), (11, 10)][(v % 6) as usize];
+            let mut out = Vec::new();
+            {
+                let mut w = brotli::CompressorWriter::new(&mut out, 1 + (v % 4096) as usize, q, lgwin);
+                w.write_all(data).unwrap();
+            }
+            out
+        }
+        _ => codec_compress(c, data),
     }
-    codec_compress(c, data)
 }
 pub fn codec_decompress(c: u8, data: &[u8]) -> Result<Vec<u8>, String> {
     let mut out = Vec::new();
